@@ -15,6 +15,7 @@ ERRNOS = {
              E.ENOENT, E.ELOOP],
     'bopen': [E.EACCES, E.EIO, E.EMFILE, E.ENOSPC],
     'write': [E.ENOSPC, E.EIO, E.EDQUOT],
+    'fwrite': [E.ENOSPC, E.EIO, E.EDQUOT, E.EFBIG],
     'close': [E.EIO],
     'rename': [E.EACCES, E.EPERM, E.EXDEV, E.EROFS, E.EIO, E.EBUSY, E.ENOSPC,
                E.ENOENT, E.ENOTDIR, E.EMLINK],
